@@ -1,6 +1,7 @@
 import BasicModel.Lemmas.Control
 import BasicModel.Lemmas.CodegenShape
 import BasicModel.Model.Parse
+import BasicModel.Lemmas.FnCall
 /-
   C10 — User functions bind parameters locally and evaluate at call time.
 
@@ -197,6 +198,370 @@ example : (((doFn "FNB".toList).run).run exCall).1 = .error (Error.mk' 18) := by
 example : (((doFn "FNA".toList).run).run { exCall with functions := [("FNA".toList, (1, 7))] }).1 =
     .error ((Error.mk' 5).withMsg "WRONG NUMBER OF ARGUMENTS") := by decide
 example : (Parse.mangle (.plain "FNA".toList) (.integer "X".toList)) = .integer "FNA.X".toList := by decide
+
+/-! ### user functions, end to end: DEF records, a call binds, evaluates at call time, returns
+
+  The mechanisms above, composed (`Lemmas/FnCall.lean`).  The arguments and the body are trees of the
+  fragment `Spec.Pure` of `Spec/Eval.lean` (literals, scalar variables, operators, the 22
+  one-argument built-ins); the body reads its parameters through their slots `FNx.p` — that is the
+  tree the parser builds (`Parse.defStmt` replaces each parameter by `Parse.mangle`) — and may read
+  any program variable.  `Spec.evalCall vars slots body args` is the hand-written meaning of the
+  call: evaluate `args` left to right in `vars`, store value i into slot i (`Var.store`: conversion
+  to the slot's type), evaluate `body` in the resulting store. -/
+
+section endToEnd
+open Basic.Spec Basic.Lemmas.ExprCompile Basic.Lemmas.FnCall
+
+/-- the parameter slots of `DEF f(p₁..pₖ)`, in the order of the parameter list -/
+def slots (f : TIdent) (ps : List TIdent) : List Str := ps.map fun p => (Parse.mangle f p).name
+
+/-- a name without '.' (every name the lexer produces) is not a parameter slot -/
+theorem plain_not_slot (f : TIdent) (ps : List TIdent) {x : Str} (hx : '.' ∉ x) : x ∉ slots f ps := by
+  intro h
+  obtain ⟨p, _, hp⟩ := List.mem_map.1 h
+  exact mangled_ne_plain f p x hx hp
+
+/-- two stores that agree outside the slots agree on every program variable -/
+theorem agree_on_program_variables {f : TIdent} {ps : List TIdent} {v v' : Var} (h : AgreeOff (slots f ps) v v') :
+    ∀ x : Str, '.' ∉ x → v'.fetch x = v.fetch x :=
+  fun x hx => h x (plain_not_slot f ps hx)
+
+/-- **(1a) the code of DEF.**  `DEF f(p₁..pₖ)=body` as the parser builds it (parameters mangled, body
+    over the mangled parameters and program variables) compiles to one statement fragment, nothing
+    reported, whose code is
+    `k, def f, jump →L, pop f.p₁ … pop f.pₖ, ⟨body⟩, return, L:` (`defCode`; the jump is the op at
+    index 2, its label is defined at the end of the fragment), without data -/
+theorem def_compiles {body : Expr} (hp : Pure body) (c fc : Col) (f : TIdent) (ps : List (Col × TIdent))
+    (s : Codegen.VState) (hk : ps.length ≤ 32767) (hlen : 3 + ps.length + (flat body).length + 1 ≤ 65535) :
+    ∃ frag : Link,
+      Codegen.acceptStmt (.def c (.unary fc f) (ps.map fun p => Variable.unary p.1 (Parse.mangle f p.2)) body) s =
+        { s with g := { s.g with stmt := s.g.stmt.push (c, frag) } } ∧
+      frag.ops = (defCode f.name (slots f (ps.map (·.2))) body 0).toArray ∧
+      defCode f.name (slots f (ps.map (·.2))) body 0 =
+        [.literal (.int (Int16.ofNat ps.length)), .def f.name, .jump 0] ++
+          (slots f (ps.map (·.2))).map Opcode.pop ++ flat body ++ [.return] ∧
+      frag.unlinked.lookup 2 = some (c, -1) ∧ frag.symbols.lookup (-1) = some (frag.ops.size, 0) ∧
+      frag.data = #[] := by
+  have h := def_codegen_shape hp c fc f (ps.map fun p => (p.1, Parse.mangle f p.2)) s (by simpa using hk)
+    (by simp only [List.length_map, Gen.stackMaxLen]; exact hlen)
+  simp only [List.map_map] at h
+  obtain ⟨frag, h1, h2, h3, h4, h5⟩ := h
+  refine ⟨frag, h1, ?_, ?_, h3, h4, h5⟩
+  · rw [h2]; simp [slots, Function.comp_def]
+  · simp [defCode, fnCode, slots]
+
+/-- **(1b) the code of a call.**  `f(a₁..aₖ)` (`f` starts with FN) compiles to one expression
+    fragment, nothing reported: the arguments' codes in the order written, the literal `k`, `fn f` -/
+theorem call_compiles (c : Col) (f : TIdent) (args : List Expr) (hf : Parse.isUserFunction f = true)
+    (hp : ∀ a ∈ args, Pure a) (hk : args.length ≤ 32767) (s : Codegen.VState)
+    (hlen : (args.flatMap flat).length + 2 ≤ 65535) :
+    Codegen.acceptExpr (.var (.array c f args)) s =
+      { s with g := { s.g with expr := s.g.expr.push (c, ({ ops := (callCode f.name args).toArray } : Link)) } } ∧
+    callCode f.name args =
+      args.flatMap flat ++ [.literal (.int (Int16.ofNat args.length)), .fn f.name] :=
+  ⟨acceptExpr_call_shape c f args hf hp hk s (by rw [callCode_length]; exact hlen), rfl⟩
+
+/-- **(2) a call is correct**, all outcomes.  In a machine state `s` whose function table maps `f` to
+    `(k, entry)`, with the function's code `pop f.p₁ … pop f.pₖ, ⟨body⟩, return` at `entry`, the
+    call's code at `s.pc`, trace off, room on the stack, variables holding numbers and strings
+    (`CallSite`), and `k` arguments: running the call and the function
+    * if `Spec.evalCall` gives `(v, vars')`: ends after the call's code with `v` pushed on the stack
+      as it was before the call, the variables `vars'`, and every other component of the machine as
+      in `s`; `vars'` reads like `s.vars` at every name without a '.', i.e. at every program variable
+      — one named like a parameter included;
+    * else stops with the error `Spec.evalCall` gives (the first failing argument, else the first
+      parameter slot refusing its argument, else the body), the program variables again untouched. -/
+theorem call_correct (env : Env) (hie : Bool) {s : Runtime} {f : TIdent} {ps : List TIdent} {body : Expr}
+    {args : List Expr} {entry : Nat} (hs : CallSite s f.name (slots f ps) body args entry)
+    (harity : ps.length = args.length) :
+    match evalCall s.vars (slots f ps) body args with
+    | .ok (v, vars') =>
+      runSteps env hie ((callCode f.name args).length + (fnCode (slots f ps) body).length) s =
+        (.ok .continue, { s with pc := s.pc + (callCode f.name args).length, stack := s.stack.push v, vars := vars' }) ∧
+      ∀ x : Str, '.' ∉ x → vars'.fetch x = s.vars.fetch x
+    | .error err => ∃ s'',
+      runSteps env hie ((callCode f.name args).length + (fnCode (slots f ps) body).length) s = (.error err, s'') ∧
+      ∀ x : Str, '.' ∉ x → s''.vars.fetch x = s.vars.fetch x := by
+  have h := call_run env hie hs (by simpa [slots] using harity)
+  cases hr : evalCall s.vars (slots f ps) body args with
+  | ok r =>
+    obtain ⟨v, vars'⟩ := r
+    rw [hr] at h
+    exact ⟨h.1, agree_on_program_variables h.2⟩
+  | error err =>
+    rw [hr] at h
+    obtain ⟨s'', h1, h2⟩ := h
+    exact ⟨s'', h1, agree_on_program_variables h2⟩
+
+/-- … the value is the body's value in the caller's variables *at the time of the call* with slot i
+    holding argument i converted to the slot's type; the arguments are evaluated in the caller's
+    variables, left to right -/
+theorem evalCall_meaning {vars : Var} {slots : List Str} {body : Expr} {args : List Expr} {v : Val} {vars' : Var}
+    (h : evalCall vars slots body args = .ok (v, vars')) :
+    ∃ vs, evalArgs vars args = .ok vs ∧ bindParams vars slots vs = .ok vars' ∧ eval vars' body = .ok v :=
+  evalCall_ok h
+
+/-- a failing argument: the error is raised by an instruction of the arguments' code — before the
+    argument count is pushed, before `fn` is executed, so the function is not entered — and the state
+    differs from `s` in `pc` and `stack` only -/
+theorem call_argument_error (env : Env) (hie : Bool) {s : Runtime} {f : TIdent} {ps : List TIdent} {body : Expr}
+    {args : List Expr} {entry : Nat} (hs : CallSite s f.name (slots f ps) body args entry) {err : Error}
+    (h : evalArgs s.vars args = .error err) :
+    ∃ (k : Nat) (stk : Array Val), k < (args.flatMap flat).length ∧
+      ∀ n, k < n → runSteps env hie n s = (.error err, { s with pc := s.pc + k + 1, stack := stk }) :=
+  call_run_arg_error env hie hs h
+
+/-- a failing body: the error is the body's (`Spec.eval` in the bound variables) -/
+theorem call_body_error (env : Env) (hie : Bool) {s : Runtime} {f : TIdent} {ps : List TIdent} {body : Expr}
+    {args : List Expr} {entry : Nat} (hs : CallSite s f.name (slots f ps) body args entry)
+    (harity : ps.length = args.length) {vs : List Val} {vars' : Var} {err : Error}
+    (h1 : evalArgs s.vars args = .ok vs) (h2 : bindParams s.vars (slots f ps) vs = .ok vars')
+    (h3 : eval vars' body = .error err) :
+    ∃ s'', runSteps env hie ((callCode f.name args).length + (fnCode (slots f ps) body).length) s = (.error err, s'') ∧
+      s''.vars = vars' := by
+  obtain ⟨s'', hrun, hv⟩ := call_run_body_error env hie hs (by simpa [slots] using harity) h1 h2 h3
+  exact ⟨s'', hrun _ (by rw [fnCode_length]; omega), hv⟩
+
+/-- wrong number of arguments: the arguments are evaluated, then ILLEGAL FUNCTION CALL "WRONG NUMBER OF
+    ARGUMENTS"; the function is not entered; stack and variables are as before the call -/
+theorem call_wrong_arity_error (env : Env) (hie : Bool) (s : Runtime) (name : Str) (args : List Expr) (vs : List Val)
+    (arity entry : Nat) (hargs : ∀ a ∈ args, Pure a)
+    (hcall : CodeAt s.program.link.ops s.pc (callCode name args)) (htr : s.tron = false)
+    (hfn : s.functions.lookup name = some (arity, entry)) (hne : arity ≠ args.length) (hk : args.length ≤ 32767)
+    (hroom : s.stack.size + (args.flatMap flat).length + 1 ≤ 65535)
+    (hv : evalArgs s.vars args = .ok vs) :
+    runSteps env hie (callCode name args).length s =
+      (.error ((Error.mk' Code.illegalFunctionCall).withMsg "WRONG NUMBER OF ARGUMENTS"),
+        { s with pc := s.pc + (callCode name args).length }) ∧ Code.illegalFunctionCall = 5 :=
+  ⟨call_wrong_arity env hie s name args vs arity entry hargs hcall htr hfn hne hk hroom hv, rfl⟩
+
+/-- unknown function: UNDEFINED USER FUNCTION, stack and variables as before the call -/
+theorem call_undefined_error (env : Env) (hie : Bool) (s : Runtime) (name : Str) (args : List Expr) (vs : List Val)
+    (hargs : ∀ a ∈ args, Pure a)
+    (hcall : CodeAt s.program.link.ops s.pc (callCode name args)) (htr : s.tron = false)
+    (hfn : s.functions.lookup name = none) (hk : args.length ≤ 32767)
+    (hroom : s.stack.size + (args.flatMap flat).length + 1 ≤ 65535)
+    (hv : evalArgs s.vars args = .ok vs) :
+    runSteps env hie (callCode name args).length s =
+      (.error (Error.mk' Code.undefinedUserFunction), { s with pc := s.pc + (callCode name args).length }) ∧
+    Code.undefinedUserFunction = 18 :=
+  ⟨call_undefined env hie s name args vs hargs hcall htr hfn hk hroom hv, rfl⟩
+
+/-- **DEF, then the call**: from a state at a DEF statement in a program without compile errors
+    (`hie = false`), the call's code following the function: DEF records the function, jumps over it,
+    and the call returns `Spec.evalCall` in the variables of that moment -/
+theorem def_then_call (env : Env) (s : Runtime) (f : TIdent) (ps : List TIdent) (body : Expr)
+    (args : List Expr) (hargs : ∀ a ∈ args, Pure a) (hbody : Pure body) (harity : ps.length = args.length)
+    (hdef : CodeAt s.program.link.ops s.pc
+      (defCode f.name (slots f ps) body (s.pc + (defCode f.name (slots f ps) body 0).length)))
+    (hcall : CodeAt s.program.link.ops (s.pc + (defCode f.name (slots f ps) body 0).length) (callCode f.name args))
+    (htr : s.tron = false) (hpc : s.pc + 2 < s.entryAddress) (hk : args.length ≤ 32767)
+    (hroom : s.stack.size + (args.flatMap flat).length + 1 ≤ 65535)
+    (hroomb : s.stack.size + 1 + (flat body).length ≤ 65535)
+    (hvals : ValueStore s.vars) {v : Val} {vars' : Var}
+    (h : evalCall s.vars (slots f ps) body args = .ok (v, vars')) :
+    runSteps env false (3 + ((callCode f.name args).length + (fnCode (slots f ps) body).length)) s =
+      (.ok .continue,
+        { s with pc := s.pc + (defCode f.name (slots f ps) body 0).length + (callCode f.name args).length,
+                 stack := s.stack.push v, vars := vars',
+                 functions := (f.name, (ps.length, s.pc + 3)) :: s.functions.filter (·.1 ≠ f.name) }) ∧
+    ∀ x : Str, '.' ∉ x → vars'.fetch x = s.vars.fetch x := by
+  have hl : (slots f ps).length = ps.length := by simp [slots]
+  have := def_call_run env false s f.name (slots f ps) body args hargs hbody (by rw [hl]; exact harity) hdef hcall
+    htr hpc rfl hk hroom hroomb hvals h
+  rw [hl] at this
+  obtain ⟨_, _, h2, _⟩ := evalCall_ok h
+  exact ⟨this, agree_on_program_variables (bindParams_agree _ _ _ _ h2)⟩
+
+/-- **(3) evaluation at call time.**  The same call site run from two states that differ in the
+    variables only (say, in a program variable the body reads) returns the body's value in the
+    respective variables: nothing of the variable state at DEF time is frozen into the function -/
+theorem call_evaluates_at_call_time (env : Env) (hie : Bool) {s : Runtime} {f : TIdent} {ps : List TIdent}
+    {body : Expr} {args : List Expr} {entry : Nat} (hs : CallSite s f.name (slots f ps) body args entry)
+    (harity : ps.length = args.length) (vars2 : Var) (hvals2 : ValueStore vars2)
+    {v1 v2 : Val} {w1 w2 : Var}
+    (h1 : evalCall s.vars (slots f ps) body args = .ok (v1, w1))
+    (h2 : evalCall vars2 (slots f ps) body args = .ok (v2, w2)) :
+    runSteps env hie ((callCode f.name args).length + (fnCode (slots f ps) body).length) s =
+      (.ok .continue, { s with pc := s.pc + (callCode f.name args).length, stack := s.stack.push v1, vars := w1 }) ∧
+    runSteps env hie ((callCode f.name args).length + (fnCode (slots f ps) body).length) { s with vars := vars2 } =
+      (.ok .continue, { s with pc := s.pc + (callCode f.name args).length, stack := s.stack.push v2, vars := w2 }) :=
+  call_time env hie hs (by simpa [slots] using harity) vars2 hvals2 h1 h2
+
+/-- the hypothesis `ValueStore` of `CallSite` holds in every state whose variables satisfy the
+    invariant of the variable store (C06), in particular after CLEAR/RUN, and is kept by stores -/
+theorem valueStore_reachable : ValueStore Var.new ∧ (∀ v, Thm.C06.Typed v → ValueStore v) ∧
+    (∀ v v' n x, ValueStore v → v.store n x = .ok v' → ValueStore v') :=
+  ⟨valueStore_new, fun _ h => valueStore_of_typed h, fun _ _ _ _ hv h => store_valueStore hv h⟩
+
+end endToEnd
+
+/-! ### end to end: non-vacuity
+
+  `DEF FNA(X%)=X%*2+1` compiled by hand, the program variable `X% = 20`, the call `FNA(3)`.
+  (Integer names and literals: single-precision arithmetic is opaque to the kernel.) -/
+
+section endToEndExamples
+open Basic.Spec Basic.Lemmas.ExprCompile Basic.Lemmas.FnCall
+
+def exEnv : Env := { lex := fun _ => default, lineRenum := fun _ l => l }
+
+def exF : TIdent := .plain "FNA".toList
+def exP : TIdent := .integer "X%".toList
+
+/-- `X%*2+1` as the parser builds it inside `DEF FNA(X%)`: the parameter is the slot `FNA.X%` -/
+def exBody : Expr :=
+  .bin .add (11, 17) (.bin .multiply (11, 15) (.var (.unary (11, 13) (Parse.mangle exF exP))) (.integer (14, 15) 2))
+    (.integer (16, 17) 1)
+
+/-- the argument list `(3)` -/
+def exArgs : List Expr := [.integer (4, 5) 3]
+
+example : slots exF [exP] = ["FNA.X%".toList] := by decide
+example : Pure exBody ∧ (∀ a ∈ exArgs, Pure a) ∧ Parse.isUserFunction exF = true := by decide
+example : fnCode (slots exF [exP]) exBody =
+    [.pop "FNA.X%".toList, .push "FNA.X%".toList, .literal (.int 2), .mul, .literal (.int 1), .add, .return] := by
+  decide
+example : callCode exF.name exArgs = [.literal (.int 3), .literal (.int 1), .fn "FNA".toList] := by decide
+
+/-- the shape theorems at work: the statement `DEF FNA(X%)=X%*2+1` … -/
+example : ∃ frag : Link,
+    Codegen.acceptStmt (.def (0, 17) (.unary (4, 7) exF) [.unary (8, 10) (Parse.mangle exF exP)] exBody) {} =
+      { g := { stmt := #[((0, 17), frag)] } } ∧
+    frag.ops = #[.literal (.int 1), .def "FNA".toList, .jump 0, .pop "FNA.X%".toList, .push "FNA.X%".toList,
+      .literal (.int 2), .mul, .literal (.int 1), .add, .return] := by
+  obtain ⟨frag, h1, h2, _⟩ := def_compiles (body := exBody) (by decide) (0, 17) (4, 7) exF [((8, 10), exP)] {}
+    (by decide) (by decide)
+  exact ⟨frag, h1, by rw [h2]; decide⟩
+/-- … and the expression `FNA(3)` -/
+example : Codegen.acceptExpr (.var (.array (0, 6) exF exArgs)) {} =
+    { g := { expr := #[((0, 6), { ops := #[.literal (.int 3), .literal (.int 1), .fn "FNA".toList] })] } } :=
+  (call_compiles (0, 6) exF exArgs (by decide) (by decide) (by decide) {} (by decide)).1
+
+/-- a program that has reached `DEF FNA(X%)=X%*2+1` at address 2 (function at 5..11), followed by the
+    call `FNA(3)` at address 12; `X% = 20`; one value on the stack -/
+def exM : Runtime :=
+  { program := { link := { ops := #[.end, .end] ++ (defCode exF.name (slots exF [exP]) exBody 12).toArray ++
+      (callCode exF.name exArgs).toArray ++ #[.end] } },
+    pc := 2, entryAddress := 100, stack := #[.str ['x']], vars := { vars := [("X%".toList, .int 20)] } }
+
+theorem exM_values : ValueStore exM.vars := by
+  intro p hp
+  simp only [exM, List.mem_cons, List.not_mem_nil, or_false] at hp
+  subst hp; rfl
+
+/-- the meaning of the call: 7, the slot `FNA.X%` holds 3, `X%` still holds 20 -/
+theorem exM_evalCall : evalCall exM.vars (slots exF [exP]) exBody exArgs =
+    .ok (.int 7, { vars := [("FNA.X%".toList, .int 3), ("X%".toList, .int 20)] }) := by rfl
+
+/-- `def_then_call` applied: all its hypotheses hold of this machine; 13 steps (3 for DEF, 3 for the
+    call sequence, 7 in the function) end after the call with 7 pushed, `FNA` recorded (arity 1,
+    entry 5), `X%` untouched -/
+example : runSteps exEnv false 13 exM =
+    (.ok .continue, { exM with pc := 15, stack := #[.str ['x'], .int 7],
+                               vars := { vars := [("FNA.X%".toList, .int 3), ("X%".toList, .int 20)] },
+                               functions := [("FNA".toList, (1, 5))] }) :=
+  (def_then_call exEnv exM exF [exP] exBody exArgs (by decide) (by decide) rfl (by decide) (by decide) (by decide)
+    (by decide) (by decide) (by decide) (by decide) exM_values exM_evalCall).1
+
+def isContinue (r : Except Error Step × Runtime) : Bool :=
+  match r.1 with
+  | .ok .continue => true
+  | _ => false
+def errorOf (r : Except Error Step × Runtime) : Option Error :=
+  match r.1 with
+  | .error e => some e
+  | .ok _ => none
+
+/-- … and the machine does that, computed independently of the proof -/
+example : isContinue (runSteps exEnv false 13 exM) = true := by decide +kernel
+example : (runSteps exEnv false 13 exM).2.stack = #[.str ['x'], .int 7] := by decide +kernel
+example : (runSteps exEnv false 13 exM).2.pc = 15 := by decide +kernel
+example : (runSteps exEnv false 13 exM).2.vars.fetch "X%".toList = .ok (.int 20) := by decide +kernel
+example : (runSteps exEnv false 13 exM).2.vars.vars = [("FNA.X%".toList, .int 3), ("X%".toList, .int 20)] := by
+  decide +kernel
+example : (runSteps exEnv false 13 exM).2.functions = [("FNA".toList, (1, 5))] := by decide +kernel
+/-- after DEF alone (3 steps) control is past the function, nothing of it has been executed -/
+example : (runSteps exEnv false 3 exM).2.pc = 12 ∧ (runSteps exEnv false 3 exM).2.stack = #[.str ['x']] ∧
+    (runSteps exEnv false 3 exM).2.vars.vars = [("X%".toList, .int 20)] := by decide +kernel
+
+/-! evaluation at call time: `DEF FNA(X%)=X%+Y%`, called as `FNA(3)` with `Y% = 1`, then with `Y% = 2` -/
+
+/-- `X%+Y%` inside `DEF FNA(X%)`: the slot `FNA.X%` and the program variable `Y%` -/
+def exBodyY : Expr :=
+  .bin .add (11, 16) (.var (.unary (11, 13) (Parse.mangle exF exP))) (.var (.unary (14, 16) (.integer "Y%".toList)))
+
+/-- a machine in which `FNA` has been defined (function at 3..7) and that is at the call `FNA(3)`
+    (address 8), with `Y% = y` -/
+def exMY (y : Int16) : Runtime :=
+  { program := { link := { ops := #[.end, .end, .end] ++ (fnCode (slots exF [exP]) exBodyY).toArray ++
+      (callCode exF.name exArgs).toArray ++ #[.end] } },
+    pc := 8, entryAddress := 100, functions := [("FNA".toList, (1, 3))],
+    vars := { vars := [("Y%".toList, .int y)] } }
+
+theorem exMY_site : CallSite (exMY 1) exF.name (slots exF [exP]) exBodyY exArgs 3 :=
+  { pureArgs := by decide, pureBody := by decide, fn := by decide, call := by decide, code := by decide
+    tron := rfl, count := by decide, room := by decide, roomBody := by decide
+    values := by
+      intro p hp
+      simp only [exMY, List.mem_cons, List.not_mem_nil, or_false] at hp
+      subst hp; rfl }
+
+/-- the same function, the same argument: 4 when `Y% = 1`, 5 when `Y% = 2` (theorem applied) -/
+example :
+    runSteps exEnv false 8 (exMY 1) =
+      (.ok .continue, { exMY 1 with pc := 11, stack := #[.int 4],
+                                    vars := { vars := [("FNA.X%".toList, .int 3), ("Y%".toList, .int 1)] } }) ∧
+    runSteps exEnv false 8 (exMY 2) =
+      (.ok .continue, { exMY 1 with pc := 11, stack := #[.int 5],
+                                    vars := { vars := [("FNA.X%".toList, .int 3), ("Y%".toList, .int 2)] } }) :=
+  call_evaluates_at_call_time exEnv false exMY_site rfl (exMY 2).vars
+    (by
+      intro p hp
+      simp only [exMY, List.mem_cons, List.not_mem_nil, or_false] at hp
+      subst hp; rfl)
+    (v1 := .int 4) (v2 := .int 5) (by rfl) (by rfl)
+/-- … and computed -/
+example : (runSteps exEnv false 8 (exMY 1)).2.stack = #[.int 4] ∧ (runSteps exEnv false 8 (exMY 2)).2.stack = #[.int 5] ∧
+    (runSteps exEnv false 8 (exMY 2)).2.vars.fetch "Y%".toList = .ok (.int 2) := by decide +kernel
+
+/-! errors -/
+
+/-- `FNA(3, 3)`: wrong number of arguments -/
+def exMArity : Runtime :=
+  { program := { link := { ops := #[.end, .end, .end] ++ (fnCode (slots exF [exP]) exBodyY).toArray ++
+      (callCode exF.name (exArgs ++ exArgs)).toArray ++ #[.end] } },
+    pc := 8, entryAddress := 100, functions := [("FNA".toList, (1, 3))], stack := #[.str ['x']],
+    vars := { vars := [("Y%".toList, .int 1)] } }
+
+example : runSteps exEnv false 4 exMArity =
+    (.error ((Error.mk' 5).withMsg "WRONG NUMBER OF ARGUMENTS"), { exMArity with pc := 12 }) :=
+  (call_wrong_arity_error exEnv false exMArity exF.name (exArgs ++ exArgs) [.int 3, .int 3] 1 3 (by decide) (by decide)
+    rfl (by decide) (by decide) (by decide) (by decide) (by rfl)).1
+example : errorOf (runSteps exEnv false 4 exMArity) = some ((Error.mk' 5).withMsg "WRONG NUMBER OF ARGUMENTS") ∧
+    (runSteps exEnv false 4 exMArity).2.stack = #[.str ['x']] ∧
+    (runSteps exEnv false 4 exMArity).2.vars.vars = [("Y%".toList, .int 1)] := by decide +kernel
+/-- the same call when no DEF has been executed: UNDEFINED USER FUNCTION -/
+example : errorOf (runSteps exEnv false 4 { exMArity with functions := [] }) = some (Error.mk' 18) := by
+  decide +kernel
+/-- a failing argument (`FNA(Y% \ 0)`): DIVISION BY ZERO from the argument's code; the function is not
+    entered (`pc` is still in the call's code, no parameter slot is bound) -/
+def exMArg : Runtime :=
+  { program := { link := { ops := #[.end, .end, .end] ++ (fnCode (slots exF [exP]) exBodyY).toArray ++
+      (callCode exF.name [.bin .divideInt (0, 6) (.var (.unary (0, 2) (.integer "Y%".toList))) (.integer (5, 6) 0)]).toArray
+        ++ #[.end] } },
+    pc := 8, entryAddress := 100, functions := [("FNA".toList, (1, 3))],
+    vars := { vars := [("Y%".toList, .int 1)] } }
+example : errorOf (runSteps exEnv false 12 exMArg) = some (Error.mk' Code.divisionByZero) ∧
+    (runSteps exEnv false 12 exMArg).2.pc = 11 ∧
+    (runSteps exEnv false 12 exMArg).2.vars.vars = [("Y%".toList, .int 1)] := by decide +kernel
+/-- a failing body (`X%+Y%` with `Y% = 32767`, argument 3): OVERFLOW raised in the function, the slot
+    bound, `Y%` untouched -/
+example : errorOf (runSteps exEnv false 8 (exMY 32767)) = some (Error.mk' Code.overflow) ∧
+    (runSteps exEnv false 8 (exMY 32767)).2.vars.vars = [("FNA.X%".toList, .int 3), ("Y%".toList, .int 32767)] := by
+  decide +kernel
+
+end endToEndExamples
 
 end Thm.C10
 end Basic
